@@ -440,6 +440,7 @@ type ReplayFile struct {
 	Inputs     map[string]string `json:"inputs"`
 	Decisions  []int64           `json:"decisions,omitempty"`
 	Note       string            `json:"note,omitempty"`
+	Tier       string            `json:"tier,omitempty"`
 }
 
 type NativeResult struct {
@@ -470,7 +471,7 @@ func (e *Engine) confirmBySearch(fn *ssa.Function, x *Exec, ob *Obligation, r *O
 		r.Note += "; no native witness search registered for it"
 		return
 	}
-	rf := ReplayFile{Package: fn.Pkg.Pkg.Path(), Harness: fn.Name(), Obligation: ob.ID, Kind: "search", Where: ob.Where,
+	rf := ReplayFile{Tier: NativeReplayTier, Package: fn.Pkg.Pkg.Path(), Harness: fn.Name(), Obligation: ob.ID, Kind: "search", Where: ob.Where,
 		Inputs: map[string]string{"@search": ob.ID, "@seed": "88172645463325252"},
 		Note:   "deterministic native witness search for a lemma refuted by the solver; stage-level model: " + fmt.Sprint(r.Model)}
 	os.MkdirAll(opts.ReplayDir, 0o755)
@@ -502,7 +503,7 @@ func (e *Engine) confirmByNativeRun(fn *ssa.Function, x *Exec, ob *Obligation, r
 	path := filepath.Join(opts.ReplayDir, fmt.Sprintf("%s_native-run.json", fn.Name()))
 	nr, ok := e.nativeRuns[fn.Name()]
 	if !ok {
-		rf := ReplayFile{Package: fn.Pkg.Pkg.Path(), Harness: fn.Name(), Obligation: ob.ID, Kind: "native-run", Where: ob.Where,
+		rf := ReplayFile{Tier: NativeReplayTier, Package: fn.Pkg.Pkg.Path(), Harness: fn.Name(), Obligation: ob.ID, Kind: "native-run", Where: ob.Where,
 			Inputs: map[string]string{"@seed": "88172645463325252"},
 			Note:   "native run of the harness after the solver refuted a tracked-range obligation: " + ob.Where}
 		os.MkdirAll(opts.ReplayDir, 0o755)
@@ -532,7 +533,7 @@ func (e *Engine) confirmNatively(fn *ssa.Function, x *Exec, ob *Obligation, r *O
 			inputs[iv.Name] = v
 		}
 	}
-	rf := ReplayFile{Package: fn.Pkg.Pkg.Path(), Harness: fn.Name(), Obligation: ob.ID, Kind: ob.Kind, Where: ob.Where, Inputs: inputs, Decisions: x.taken}
+	rf := ReplayFile{Tier: NativeReplayTier, Package: fn.Pkg.Pkg.Path(), Harness: fn.Name(), Obligation: ob.ID, Kind: ob.Kind, Where: ob.Where, Inputs: inputs, Decisions: x.taken}
 	os.MkdirAll(opts.ReplayDir, 0o755)
 	h := fnv64(fmt.Sprintf("%s|%s|%v", fn.Name(), ob.ID, inputs))
 	path := filepath.Join(opts.ReplayDir, fmt.Sprintf("%s_%s_%x.json", fn.Name(), sanitize(ob.ID), h&0xffffff))
@@ -603,8 +604,12 @@ func fnv64(s string) uint64 {
 }
 
 // RunNativeReplay runs the harness natively (same binary, subprocess) on the values of a replay file.
+// NativeReplayTier is the tier of the current run: native replays and validation runs use the same tier as the
+// symbolic run (harnesses select parameter sets and cases by tier).
+var NativeReplayTier = "quick"
+
 func RunNativeReplay(exe, replayPath string, timeout time.Duration) NativeResult {
-	cmd := exec.Command(exe, "-native-replay", replayPath)
+	cmd := exec.Command(exe, "-native-replay", replayPath, "-tier", NativeReplayTier)
 	cmd.Env = append(os.Environ(), "VERIF_NATIVE=1")
 	var nr NativeResult
 	donec := make(chan struct{})
